@@ -293,7 +293,7 @@ func (f *FuncVC) loopHead(fr *frame, li *loopInfo, entry *State) *State {
 	label := fmt.Sprintf("loop%d", li.ord)
 	if spec != nil {
 		for _, inv := range spec.Invariants {
-			env := f.envFor(fr, entry, li.pos)
+			env := f.loopEnv(fr, entry, li)
 			t, err := env.boolExpr(inv.Expr)
 			if err != nil {
 				f.staleClause(inv, err)
@@ -383,7 +383,7 @@ func (f *FuncVC) loopHead(fr *frame, li *loopInfo, entry *State) *State {
 	}
 	if spec != nil {
 		for _, inv := range spec.Invariants {
-			env := f.envFor(fr, st, li.pos)
+			env := f.loopEnv(fr, st, li)
 			t, err := env.boolExpr(inv.Expr)
 			if err != nil {
 				continue
@@ -391,13 +391,13 @@ func (f *FuncVC) loopHead(fr *frame, li *loopInfo, entry *State) *State {
 			f.assumeUnder(st, t)
 		}
 		for _, u := range spec.Uses {
-			env := f.envFor(fr, st, li.pos)
+			env := f.loopEnv(fr, st, li)
 			if err := env.useLemma(u.Expr); err != nil {
 				f.staleClause(u, err)
 			}
 		}
 		if spec.Decreases != nil {
-			env := f.envFor(fr, st, li.pos)
+			env := f.loopEnv(fr, st, li)
 			v, _, err := env.expr(spec.Decreases.Expr)
 			if err != nil || v.K != KInt {
 				f.staleClause(spec.Decreases, fmt.Errorf("decreases: %v", err))
@@ -439,7 +439,7 @@ func (f *FuncVC) loopLatch(fr *frame, li *loopInfo, latch *ssa.BasicBlock, st *S
 		return
 	}
 	for _, inv := range spec.Invariants {
-		env := f.envFor(fr, es, li.pos)
+		env := f.loopEnv(fr, es, li)
 		t, err := env.boolExpr(inv.Expr)
 		if err != nil {
 			continue
@@ -476,7 +476,7 @@ func (f *FuncVC) loopLatch(fr *frame, li *loopInfo, latch *ssa.BasicBlock, st *S
 		o.Pos = f.G.P.posStr(li.pos)
 	}
 	if spec.Decreases != nil && li.variantHead != "" {
-		env := f.envFor(fr, es, li.pos)
+		env := f.loopEnv(fr, es, li)
 		v, _, err := env.expr(spec.Decreases.Expr)
 		if err == nil && v.K == KInt {
 			o := f.oblig(label+".variant", es, "(and (<= 0 "+li.variantHead+") (< "+f.it(v)+" "+li.variantHead+"))", li.pos, "variant decreases and is bounded: "+spec.Decreases.Text)
@@ -1021,7 +1021,8 @@ func (f *FuncVC) binop(st *State, op token.Token, a, b Val, ta, tb, tr types.Typ
 		return Val{K: KBool, T: or(a.T, b.T), Typ: tr}
 	}
 	if a.K == KStr && op == token.ADD {
-		f.unsupportedf("string concatenation")
+		// a concatenation is a fresh string about which nothing is known (sound over-approximation:
+		// contents and length unconstrained beyond the type invariant)
 		return f.freshVal(st, "concat", tr)
 	}
 	if a.K == KBV {
@@ -1799,4 +1800,22 @@ func (f *FuncVC) isAndOne(t string, w int) (string, bool) {
 		}
 	}
 	return "", false
+}
+
+// loopEnv is envFor at a loop's position plus the contract-only name `rangeidx`: the hidden index variable of a
+// range-over-slice/string loop (go/ssa "rangeindex" cell: -1 before the first iteration, k-1... at the cut point the
+// header has not yet incremented it, so it is the index of the iteration just finished, or -1).
+func (f *FuncVC) loopEnv(fr *frame, st *State, li *loopInfo) *Env {
+	env := f.envFor(fr, st, li.pos)
+	for _, in := range li.header.Instrs {
+		if s, ok := in.(*ssa.Store); ok {
+			if a, ok := s.Addr.(*ssa.Alloc); ok && a.Comment == "rangeindex" {
+				if v, ok := st.cells[a]; ok {
+					env.vars["rangeidx"] = v
+					env.vtypes["rangeidx"] = types.Typ[types.Int]
+				}
+			}
+		}
+	}
+	return env
 }
